@@ -47,6 +47,12 @@ func Faults() []Fault {
 		{Name: "render-without-argument", Lines: rel("= @render")},
 		{Name: "cond-attr-static-value", Lines: rel("%p{a ? \"x\"} t")},
 		{Name: "cond-attr-no-value", Lines: rel("%p{a ?} t")},
+		// the malformed item is followed by well-formed ones (another name; the same name again, with a value and bare)
+		{Name: "cond-attr-static-value-then-other", Lines: rel("%p{a ? \"x\", b: \"y\"} t")},
+		{Name: "cond-attr-static-value-then-same-name", Lines: rel("%p{a ? \"x\", a: \"y\"} t")},
+		{Name: "cond-attr-static-value-then-same-name-dynamic", Lines: rel("%p{a ? `x`, a: #{s0}} t")},
+		{Name: "cond-attr-static-value-then-same-name-bare", Lines: rel("%p{a ? \"x\", a} t")},
+		{Name: "cond-attr-static-value-same-name-next-line", Lines: rel("%p{a ? \"x\",", "\t\ta: \"y\"} t")},
 		{Name: "unterminated-attribute-list", Cut: true, Lines: rel("%p{a: \"b\" t")},
 		{Name: "unterminated-interpolation", Cut: true, Lines: rel("%p t #{s0 t")},
 		{Name: "unterminated-attr-interpolation", Cut: true, Lines: rel("%p{a: #{s0 } t")},
